@@ -33,7 +33,7 @@ def jobs(tier, seed):
     from . import C11_e1 as C
     t = 10.0 if tier == "quick" else 60.0
     js = []
-    dims = [1, 2, 3] if tier == "quick" else [1, 2, 3, 4, 5]
+    dims = [1, 2, 3] if tier == "quick" else [1, 2, 3, 4]
     for n in dims:
         js.append(Job(f"C11/armijo/{n}", "contracts.C11:job_armijo", dict(n=n, seed=seed, timeout_s=t)))
         for mode in C.MODES:
@@ -42,11 +42,12 @@ def jobs(tier, seed):
                     if tier == "quick" and n == 3 and not (mu_given and start_given):
                         continue
                     js.append(Job(f"C11/optimize/{n}/{mode}/{mu_given}/{start_given}", "contracts.C11:job_optimize",
-                                  dict(n=n, mode=mode, mu_given=mu_given, start_given=start_given, seed=seed, timeout_s=t)))
+                                  dict(n=n, mode=mode, mu_given=mu_given, start_given=start_given, seed=seed, timeout_s=t),
+                                  timeout_s=(240.0 if tier == "quick" else 900.0), weight=float(n)))
     return js
 
 
 CLAIM = {'engine': 'E1-pyvc', 'level': 'other',
  'text': 'PARTIAL. The last sentence of C11 is proved as loop invariants of the unmodified ProjectedGradientDescentBacktracking.optimize (VCs generated from its AST; loss, gradient and projection are uninterpreted functions constrained only by their assumed contracts): for every loss function, every closed convex set C with nearest-point projection, every start point in C, every mu > 0 (given or default), gamma > 0, every stopping mode and every iteration count, each iterate lies in C, loss(x_{k+1}) <= loss(x_k) <= loss(x_0), the step length stays in (0,1], and the returned value is the last iterate. _is_doing_for_alpha is proved to be exactly the Armijo test and used through that contract. The two real-arithmetic lemmas used (descent direction from the variational inequality; sign of gamma*alpha*<y,g>) are discharged separately.',
- 'note': 'NOT decided: optimality of the returned point over the physical set, agreement with the CVXPY/SCS estimator, termination of either loop (no contract over one call states them; SCS is external). Vector length 1..3 (1..5 thorough) componentwise; floats as reals. Refuted obligations are replayed by a native search over concrete convex quadratic problems with box constraints on the real class.',
+ 'note': 'NOT decided: optimality of the returned point over the physical set, agreement with the CVXPY/SCS estimator, termination of either loop (no contract over one call states them; SCS is external). Vector length 1..3 (1..4 thorough) componentwise; floats as reals. Refuted obligations are replayed by a native search over concrete convex quadratic problems with box constraints on the real class.',
  'technique': 'contract-based deductive verification (AST->VC, loop invariants, uninterpreted callee contracts, z3/cvc5)'}
